@@ -44,7 +44,10 @@ def stacking_case(draw):
     return {"W": W, "N": N, "lens": lens, "seed": seed, "special_rate": special_rate, "layout": layout,
             "explicit_bits": explicit, "labels_seed": labels_seed, "reuse_buffers": draw(st.booleans()),
             "as_views": draw(st.one_of(st.none(), st.none(), st.permutations(list(range(6))))),
-            "narrow_first": draw(st.sampled_from([None, None, None, "float32", "float16"]))}
+            "narrow_first": draw(st.sampled_from([None, None, None, "float32", "float16"])),
+            # the kind of array object the caller holds (C-ordered, own data): subclass, masked array without a mask, np.matrix,
+            # memory map - the stacking is a copy of rows whatever the container
+            "array_kind": draw(st.sampled_from([None, None, None, None, "subclass", "masked", "memmap_rw", "memmap_ro"]))}
 
 
 def build_series(case):
@@ -79,6 +82,8 @@ def build_series(case):
             a = big[si % 2::2]
         elif lay == "row_reversed":
             a = np.ascontiguousarray(a[::-1])[::-1]          # negative row stride
+        if lay == "C" and case.get("array_kind") and not case.get("reuse_buffers"):
+            a = buffers.as_kind(a, case["array_kind"])
         if lay == "C" and case.get("reuse_buffers"):
             a = buffers.reuse(f"C10.series.{si}", a)     # the same array object as in earlier cases, refilled in place
         out.append(a)
@@ -187,6 +192,8 @@ def execute(case, t):
     if inner_all != labels_before:
         raise Violation("concatenated inner parts of the split+padded lists differ from the input label list")
     t.cls(f"layout_{case['layout']}")
+    if case.get("array_kind") and case["layout"] == "C" and not case.get("reuse_buffers"):
+        t.cls(f"array_kind_{case['array_kind']}")
     t.cls(f"series_{len(series)}")
     if case.get("as_views") and case["layout"] == "C" and len(series) >= 2:
         t.cls("series_are_views_of_one_array")
